@@ -3,6 +3,7 @@
 #[path = "../../h_swarm/src/sim.rs"]
 mod sim;
 mod c52;
+mod c53;
 mod runner;
 
 fn main() {
@@ -11,6 +12,7 @@ fn main() {
     let mut out = hcore::Out::new();
     match args.prop.as_str() {
         "C52" => c52::run(&args, &mut out),
+        "C53" => c53::run(&args, &mut out),
         p => {
             eprintln!("h_sw_d: unknown property {p}");
             std::process::exit(2);
